@@ -3,7 +3,10 @@ package scen
 import (
 	"bytes"
 	"fmt"
+	"math/big"
 	"time"
+
+	"github.com/idena-network/idena-go/blockchain/fee"
 
 	"github.com/idena-network/idena-go/blockchain/types"
 	"github.com/idena-network/idena-go/common"
@@ -323,4 +326,52 @@ func (l *Ledger) maybeFastForward(n *simnode.Node) {
 		s.W.Advance(gap - lead)
 		s.R.Probe("fast_forward_to_ceremony")
 	}
+}
+
+// SeedInviteePool submits the transactions that make an INVITED address a pool: god invites a fresh key with some
+// funds, one to three validated identities delegate to it. What happens next (the delegation switch, the pool going
+// online, its inviter terminating it, the invitation being activated ...) is left to the drawn client mix.
+func (l *Ledger) SeedInviteePool(nodes []*simnode.Node) {
+	s := l.S
+	view := nodes[0]
+	st := view.App.State
+	god := s.byAddr[st.GodAddress()]
+	if god == nil || st.GodAddressInvites() == 0 || st.ValidationPeriod() != 0 {
+		return
+	}
+	x := s.fresh("invitee", s.T.Choose("seed.invitee", 12))
+	var txs []*types.Transaction
+	view.Do(func() {
+		nonce, ep := s.NextNonce(view, god)
+		amt := new(big.Int).Div(st.GetBalance(god.Addr), big.NewInt(20))
+		tx := &types.Transaction{AccountNonce: nonce, Epoch: ep, Type: types.InviteTx, To: &x.Addr, Amount: amt}
+		tx.MaxFee = new(big.Int).Mul(fee.CalculateFee(view.App.ValidatorsCache.NetworkSize(), FeeRate(view), tx), big.NewInt(3))
+		txs = append(txs, s.sign(tx, god))
+		k := 1 + s.T.Choose("seed.ndelegators", 3)
+		for _, id := range s.Ids {
+			if k == 0 {
+				break
+			}
+			if id == god || !view.App.ValidatorsCache.IsValidated(id.Addr) || st.Delegatee(id.Addr) != nil || st.GetBalance(id.Addr).Sign() == 0 {
+				continue
+			}
+			n2, e2 := s.NextNonce(view, id)
+			d := &types.Transaction{AccountNonce: n2, Epoch: e2, Type: types.DelegateTx, To: &x.Addr}
+			d.MaxFee = new(big.Int).Mul(fee.CalculateFee(view.App.ValidatorsCache.NetworkSize(), FeeRate(view), d), big.NewInt(3))
+			txs = append(txs, s.sign(d, id))
+			k--
+		}
+	})
+	for _, tx := range txs {
+		any := false
+		for _, n := range nodes {
+			if s.Submit(n, tx) == nil {
+				any = true
+			}
+		}
+		if any {
+			s.NoteAccepted(tx)
+		}
+	}
+	s.R.Probe("seeded_invitee_pool")
 }
